@@ -814,3 +814,39 @@ def c14(chk):
     chk.canary_cases(r["cases_file"], flip_metadata_case)
     chk.assumptions += ["documents that mention the placeholder DID are outside the property's domain and are not generated",
                         "ledger address fields of the metadata are excepted (they are never packed)"]
+
+
+# ------------------------------------------------------------------------------------------------
+# C16 — SD-JWT credential and key-binding JWT validation
+# ------------------------------------------------------------------------------------------------
+
+def flip_sdjwt_case(rows, k=3):
+    out = []
+    for r in rows:
+        if r["out"].get("verdict") == "accept" and r["row"]["part"] == "kb":
+            r = json.loads(json.dumps(r))
+            r["out"]["verdict"] = "reject"
+            out.append(r)
+            if len(out) >= k:
+                break
+    if not out:
+        raise ToolError("canary: no accepted kb row")
+    return out
+
+
+@plan("C16")
+def c16(chk):
+    chk.rule = ("TLC enumerates (a) the credential table: signing key x kid (full / fragment / missing method) x nonce on either "
+                "side x issuer claim x disclosures (all, subset, none, reordered, forged extra, taken from another token, "
+                "duplicated) x expiry boundary x revocation status x fail-fast mode; (b) the key-binding table: KB-JWT present, typ "
+                "kb+jwt/JWT/absent, kid full/fragment/missing/absent, configured method id, signed by the holder key / another "
+                "holder key / a foreign key, sd_hash right / over other disclosures / wrong, nonce and audience none/same/"
+                "different, iat before/at/inside/at/after the window or long past / far future with no window. Every row is a real "
+                "SD-JWT issued with SdObjectEncoder and signed with real Ed25519 keys; accept <=> fully bound (a duplicated "
+                "disclosure may be accepted or refused), the reconstructed credential shows exactly the disclosed claims, and "
+                "every failure is an error value, never a panic.")
+    r = chk.mc("SdJwtValidation", "SdJwtValidation_%s.cfg" % chk.tier, workers=4, timeout=600, heap="3g")
+    chk.replay(r["cases_file"], timeout=3000)
+    chk.canary_cases(r["cases_file"], flip_sdjwt_case)
+    chk.assumptions += ["sd-jwt-payload 0.2 (SdObjectEncoder/Decoder, SHA-256) trusted for disclosure hashing",
+                        "the 'no latest bound' rows compare with the current time; iat is chosen decades away from any run"]
